@@ -31,6 +31,7 @@ import (
 //	mreg <domain> <routeUser> <user> <pass> <id>         => ok|conflict   HTTPConnectTCPMuxer.Listen
 //	mreq <host> <pauth>                                  => acc:<id> | 407 | 404 | closed
 //	mw   <user> <pass> <auth>                            => next | 401    HTTPAuthMiddleware
+//	wq / wflush / s5: see eng_httpauth_web.go (static_file plugin, frps dashboard, frpc admin API, socks5 plugin)
 //	pl   <user> <pass> <pauth>                           => true | false  plugin http_proxy Auth
 //	plc  <user> <pass> (<method> <pauth>)+               => <r1>,<r2>,…   plugin http_proxy Handle: ONE work connection
 //	       carrying the requests in turn (CONNECT-like methods target the protected TCP service, the others
@@ -39,7 +40,8 @@ import (
 //
 // `req`'s <path> is the path of the request target exactly as written on the wire (percent-encoded).
 //
-// auth tokens: "-" absent | "b<k>:<hexuser>:<hexpass>" well-formed (k = scheme casing) | "m<k>" malformed
+// auth tokens: "-" absent | "b<k>:<hexuser>:<hexpass>" well-formed (k = scheme casing) | "m<k>" malformed |
+// "r<hexvalue>" the header value byte for byte (mw, req, mreq)
 type httpAuthState struct {
 	rp     *vhost.HTTPReverseProxy
 	srv    *http.Server
@@ -55,6 +57,9 @@ type httpAuthState struct {
 	plSeen   sync.Map // request path -> struct{}
 	plLn     net.Listener
 	plSeq    int
+
+	// web requests queued by `wq`, sent by `wflush` (eng_httpauth_web.go)
+	webQ []hawItem
 }
 
 var has *httpAuthState
@@ -205,6 +210,9 @@ func authHeader(tok string) (string, bool) {
 	if tok == "-" {
 		return "", false
 	}
+	if tok[0] == 'r' { // the raw value
+		return unhx(tok[1:]), true
+	}
 	if tok[0] == 'm' {
 		switch tok {
 		case "m0":
@@ -229,6 +237,9 @@ func httpAuthExec(tok []string) string {
 		httpAuthReset()
 	}
 	st := has
+	if r, ok := httpAuthWebExec(st, tok); ok {
+		return r
+	}
 	switch tok[0] {
 	case "reset":
 		httpAuthReset()
@@ -417,6 +428,16 @@ func genAuthTok(rng *rand.Rand, users, pass []string) string {
 	}
 }
 
+// genAuthTokWire: as genAuthTok, plus raw header values (exact / letter-case variants of the base64 text / other
+// encodings / blanks / other schemes, see hawHeaderValue) relative to a credential pair of the vocabulary;
+// for headers that travel over TCP and are parsed by parseBasicAuth-style code (req, mreq)
+func genAuthTokWire(rng *rand.Rand, users, pass []string) string {
+	if rng.Intn(6) == 0 {
+		return "r" + hx(hawHeaderValue(rng, pick(rng, users), pick(rng, pass)))
+	}
+	return genAuthTok(rng, users, pass)
+}
+
 func haMixCase(rng *rand.Rand, s string) string {
 	if rng.Intn(3) != 0 {
 		return s
@@ -485,11 +506,11 @@ func httpAuthGen(rng *rand.Rand, n int, emit func(string)) {
 	emit("reset")
 	id := 0
 	for i := 0; i < n; i++ {
-		k := rng.Intn(200)
+		k := rng.Intn(2086)
 		switch {
-		case k < 2:
+		case k < 20:
 			emit("reset")
-		case k < 44:
+		case k < 440:
 			id++
 			ru := pick(rng, haUsers)
 			u, p := pick(rng, haUsers), pick(rng, haPass)
@@ -500,9 +521,9 @@ func httpAuthGen(rng *rand.Rand, n int, emit func(string)) {
 				u, p = "", ""
 			}
 			emit(fmt.Sprintf("reg %s %s %s %s %s %d", hx(haMixCase(rng, pick(rng, haHosts))), hx(pick(rng, haLocs)), hx(ru), hx(u), hx(p), id))
-		case k < 52:
+		case k < 520:
 			emit(fmt.Sprintf("unreg %s %s %s", hx(pick(rng, haHosts)), hx(pick(rng, haLocs)), hx(pick(rng, haUsers))))
-		case k < 132:
+		case k < 1320:
 			form := pick(rng, []string{"o", "o", "a", "a", "c"})
 			host := haMixCase(rng, concreteHost(rng, pick(rng, haHosts)))
 			path := haGenPath(rng)
@@ -512,17 +533,28 @@ func httpAuthGen(rng *rand.Rand, n int, emit func(string)) {
 			} else if rng.Intn(4) == 0 {
 				host += pick(rng, []string{":80", ".", ".:8080"})
 			}
-			emit(fmt.Sprintf("req %s %s %s %s %s", form, hx(host), hx(path), genAuthTok(rng, haUsers, haPass), genAuthTok(rng, haUsers, haPass)))
-		case k < 148:
+			emit(fmt.Sprintf("req %s %s %s %s %s", form, hx(host), hx(path), genAuthTokWire(rng, haUsers, haPass), genAuthTokWire(rng, haUsers, haPass)))
+		case k < 1480:
 			id++
 			u, p := pick(rng, haUsers), pick(rng, haPass)
 			emit(fmt.Sprintf("mreg %s %s %s %s %d", hx(haMixCase(rng, pick(rng, haHosts))), hx(pick(rng, haUsers)), hx(u), hx(p), id))
-		case k < 178:
-			emit(fmt.Sprintf("mreq %s %s", hx(haMixCase(rng, concreteHost(rng, pick(rng, haHosts)))), genAuthTok(rng, haUsers, haPass)))
-		case k < 193:
+		case k < 1780:
+			emit(fmt.Sprintf("mreq %s %s", hx(haMixCase(rng, concreteHost(rng, pick(rng, haHosts)))), genAuthTokWire(rng, haUsers, haPass)))
+		case k < 1860:
 			emit(fmt.Sprintf("mw %s %s %s", hx(pick(rng, haUsers)), hx(pick(rng, haPass)), genAuthTok(rng, haUsers, haPass)))
-		case k < 195:
+		case k < 1930: // the middleware again, from raw header values
+			emit(hawGen(rng, "mw"))
+		case k < 1950:
 			emit(fmt.Sprintf("pl %s %s %s", hx(pick(rng, haUsers)), hx(pick(rng, haPass)), genAuthTok(rng, haUsers, haPass)))
+		case k < 2000:
+			emit(hawGen(rng, "s5"))
+		case k < 2016:
+			// a burst of requests for the web endpoints, answered together
+			for r, nr := 0, 20+rng.Intn(40); r < nr; r++ {
+				emit(hawGen(rng, pick(rng, []string{"sf", "sf", "sf", "dash", "dash", "adm"})))
+				i++
+			}
+			emit("wflush")
 		default:
 			// one work connection of the http_proxy plugin: 1..4 requests, CONNECT anywhere in the sequence
 			u, p := pick(rng, haUsers), pick(rng, haPass)
